@@ -669,7 +669,7 @@ class Interp:
         if issubclass(cls, enum.Enum):
             return self.models.enum_lookup(self, cls, args, kwargs)
         if issubclass(cls, BaseException) and not self._has_repo_init(cls):
-            return self.native(cls, [self.models.concretize_msg(a) for a in args], kwargs)
+            return self.models.keep_args(self.native(cls, [self.models.concretize_msg(a) for a in args], kwargs), args)
         if self._is_repo_class(cls):
             new = self.class_lookup(cls, "__new__")
             if new is object.__new__ or issubclass(cls, BaseException):
